@@ -36,12 +36,14 @@ const (
 	lBuf            // pointer to a modelled bytes.Buffer: I indexes state.bufs
 	lNilSlice       // nil slice (length 0), kept apart so that `x == nil` can be decided
 	lMade           // a slice made with a known non-zero length, not yet re-sliced: I indexes state.mades
+	lFunc           // a function value naming one function (handed to a helper that calls it)
 )
 
 type lval struct {
 	K lkind
 	I int64
 	U int64 // lSlice: number of elements of a made buffer that no path has written yet (they hold zero bytes)
+	F *ssa.Function
 }
 
 // madeBuf: a buffer created by make([]T, n): which prefix of it has been written element by element.
@@ -197,6 +199,9 @@ func maskTo(t types.Type, v int64) int64 {
 }
 
 func (li *lenInterp) val(st *lstate, v ssa.Value) lval {
+	if f, ok := v.(*ssa.Function); ok {
+		return lval{K: lFunc, F: f}
+	}
 	if c, ok := v.(*ssa.Const); ok {
 		if c.Value == nil {
 			if isErrorType(c.Type()) {
@@ -632,6 +637,16 @@ func (li *lenInterp) call(st *lstate, c *ssa.Call, depth int) {
 		return
 	}
 	f := sCallee(c)
+	callee := c.Call.StaticCallee()
+	if callee == nil && !c.Call.IsInvoke() {
+		// a call through a function value that names one function
+		if fv := li.val(st, c.Call.Value); fv.K == lFunc && fv.F != nil {
+			callee = fv.F
+			if o, ok := callee.Object().(*types.Func); ok {
+				f = o
+			}
+		}
+	}
 	// bytes.Buffer model
 	if f != nil && recvNamed(f) != nil && f.Pkg() != nil && f.Pkg().Path() == "bytes" && recvNamed(f).Obj().Name() == "Buffer" && len(args) > 0 && args[0].K == lBuf {
 		bi := args[0].I
@@ -669,7 +684,7 @@ func (li *lenInterp) call(st *lstate, c *ssa.Call, depth int) {
 		setRes(res)
 		return
 	}
-	if callee := c.Call.StaticCallee(); callee != nil && inModule(callee) && len(callee.Blocks) > 0 && depth < 3 {
+	if callee != nil && inModule(callee) && len(callee.Blocks) > 0 && depth < 3 {
 		saved := li.top
 		outs := li.run(callee, args, depth+1)
 		li.top = saved
